@@ -11,6 +11,7 @@ from .core import log
 class Prop:
     pid = "C00"
     lean_module = "RxModel.Props.C00"
+    extra_modules = ()        # further property modules (e.g. the lock-level part C15T)
     design_ref = "DESIGN.md §6"
     rule = ""
     trusted_base = []
@@ -76,7 +77,8 @@ def run_property(prop, tier, seed, replay=None):
     notes = []
 
     # 1. proofs
-    ok, out, tl = core.build_lean(prop.lean_module)
+    modules = [prop.lean_module] + list(prop.extra_modules)
+    ok, out, tl = core.build_lean(modules)
     proof_ok = ok
     if not ok:
         problems.append("lean-build-failed")
@@ -87,15 +89,15 @@ def run_property(prop, tier, seed, replay=None):
         problems.append("forbidden-construct: " + "; ".join(hits[:5]))
     audit = {"theorems": [], "axioms": {}, "bad": {}, "missing": []}
     if ok:
-        audit = core.audit_axioms(prop.lean_module, pid)
+        audit = core.audit_axioms(modules, pid)
         if audit["bad"] or audit["missing"] or audit["rc"] != 0:
             proof_ok = False
             problems.append(f"axiom-audit: bad={audit['bad']} missing={audit['missing']}")
             log(audit.get("log", "")[-2000:])
-    obligations = len(audit["theorems"]) if audit["theorems"] else len(core.theorems_of(prop.lean_module))
+    obligations = len(audit["theorems"]) if audit["theorems"] else sum(len(core.theorems_of(m)) for m in modules)
     discharged = len([t for t in audit["theorems"] if t in audit["axioms"] and t not in audit["bad"]]) if proof_ok or audit["axioms"] else 0
     if tier == "thorough" and ok:
-        rc, lo = core.sh(["lake", "env", "leanchecker", prop.lean_module], cwd=core.LEAN)
+        rc, lo = core.sh(["lake", "env", "leanchecker"] + modules, cwd=core.LEAN)
         notes.append(f"leanchecker rc={rc}")
         if rc != 0:
             proof_ok = False
@@ -219,7 +221,7 @@ def run_property(prop, tier, seed, replay=None):
                            any(p.startswith("run-error") for p in problems)):
         path = core.write_replay(pid, None, {"property": pid, "kind": "obligation-broken",
                                              "what": "; ".join(problems),
-                                             "theorem_module": prop.lean_module})
+                                             "theorem_module": " ".join(modules)})
         violations.append((path, " no-failing-input-found"))
 
     for sig, kf in known_hits.items():
@@ -238,7 +240,7 @@ def run_property(prop, tier, seed, replay=None):
     coverage = {
         "obligations": obligations,
         "discharged": discharged if proof_ok else min(discharged, max(0, obligations - 1)),
-        "checker_cmd": f"cd /verif/lean && lake build {prop.lean_module} && lake env lean work/Audit_{pid}.lean  # #print axioms",
+        "checker_cmd": f"cd /verif/lean && lake build {' '.join(modules)} && lake env lean ../work/Audit_{pid}.lean  # #print axioms",
         "trusted_base": base_trusted() + list(prop.trusted_base),
         "theorems": audit["theorems"],
         "axioms_used": sorted({a for axs in audit["axioms"].values() for a in axs}),
